@@ -881,7 +881,7 @@ fn main() {
                         }
                         let qp = print_prog(&q, false);
                         let row = edited_row(&qp, &hit);
-                        cases.push(Case { text: qp.text.clone(), model_req: None, family: format!("non-scalar-operand({})", class), pos: short(&hit.kind), expect: Expect::AnyOf(&["TypeMismatch", "ArgumentTypeMismatch"], row), renamed_text: None, renamed_req: None });
+                        cases.push(Case { text: qp.text.clone(), model_req: None, family: format!("non-scalar-operand({})", class), pos: short(&hit.kind), expect: Expect::AnyOf(&["TypeMismatch", "ArgumentTypeMismatch", "VariableRequired"], row), renamed_text: None, renamed_req: None });
                     }
                 }
             }
